@@ -42,6 +42,9 @@ type CtlConfig struct {
 	IgnoreStatus     bool              `json:"ignoreStatusChanges,omitempty"`
 	Strict           bool              `json:"strict,omitempty"`
 	Etag             bool              `json:"etag,omitempty"`
+	// RealRelatedInformers: the customize manager creates its related informers lazily
+	// through a real SharedInformerFactory over the simulator (instead of pre-seeded ones).
+	RealRelatedInformers bool `json:"realRelatedInformers,omitempty"`
 }
 
 const (
